@@ -22,6 +22,7 @@ func checkC07(c *Ctx, r *Report) {
 	c07R3(c, r)
 	c07R4(c, r)
 	c07R5(c, r)
+	c07RdataLexErr(c, r)
 	r.note("observation (not a violation of C06/C07): the $GENERATE sub-parser does not inherit the include file system (fsys); an $INCLUDE produced by a $GENERATE template opens through os.Open even when an include FS was configured")
 }
 
@@ -175,8 +176,11 @@ func c07R2(c *Ctx, r *Report) {
 			if !hasLo || lo < 0 {
 				problems = append(problems, "the generator can be created with a negative end")
 			}
+			// end >= start, or the stricter end > start (stricter is safe here; C06.R5 decides whether it is right)
 			if miss := guardsMissing(fn, blk, []Guard{{Name: "end >= start", Op: "lt", A: isValue(end), B: isValue(start), Holds: false}}); len(miss) > 0 {
-				problems = append(problems, "the generator can be created with end < start")
+				if miss2 := guardsMissing(fn, blk, []Guard{{Name: "end > start", Op: "lt", A: isValue(start), B: isValue(end), Holds: true}}); len(miss2) > 0 {
+					problems = append(problems, "the generator can be created with end < start")
+				}
 			}
 			// (end-start)/step <= 65535
 			isCount := func(v ssa.Value) bool {
@@ -946,7 +950,9 @@ func c07R5(c *Ctx, r *Report) {
 				return ok && (calleeNameSSA(&call.Call) == "(zlexer).Next")
 			})
 			fromErr := anyIn(s, readsField("ParseError", "lex"))
-			if !fromLexer && !fromErr {
+			// the lexer's own last token (zp.c.l): the position of a lexer error
+			fromLexerCell := anyIn(s, readsField("zlexer", "l"))
+			if !fromLexer && !fromErr && !fromLexerCell {
 				ps = append(ps, fmt.Sprintf("%s: the error position is neither the current token nor the failing parser's own token", c.pos(ci.Pos())))
 			}
 			fromParse := anyIn(s, func(v ssa.Value) bool {
